@@ -69,6 +69,25 @@ pub fn run(case: &Value, _seed: u64) -> Outcome {
         } else {
             check(&mut o, case["x"].as_str().unwrap_or(""), &case["xp"], &case["xs"], true);
         }
+        // a complete message cut INSIDE its last line (the END marker), or with characters glued to that line: what is
+        // left of the line is signature text, the end marker never comes - a truncated signature by construction
+        if kind == "wrapped" && case["x"] == "Ok" && classes.last() == Some(&"ES") {
+            let end = "-----END PGP SIGNATURE-----";
+            let head = &input[..input.rfind(end).unwrap_or(0)];
+            let mut damaged: Vec<String> = (1..=6).map(|k| end[..end.len() - k].to_string()).collect();
+            damaged.extend(["-", "-----END", "-----END PGP SIGNATURE", "-----END PGP SIGNATURE------", "-----END PGP SIGNATURE-----x", "-----END PGP  SIGNATURE-----", "-----end pgp signature-----", "-----END PGP SIGNED MESSAGE-----"].iter().map(|x| x.to_string()));
+            for (n, d) in damaged.iter().enumerate() {
+                if (n + map) % 3 != 0 && map != 0 { continue; }
+                let t = format!("{}{}{}", head, d, if n % 2 == 0 { "" } else { "\n" });
+                let f2 = vec![format!("kind:{}", kind), "cut_inside_end_line".to_string()];
+                o.evals += 1;
+                match guarded("strip_pgp_signature", || strip_pgp_signature(&t)) {
+                    Ok(Err(Error::TruncatedPgpSignature)) => {}
+                    Ok(other) => o.v("C19", "outcome", "strip_pgp_signature", "mismatch", &f2, &t, format!("outcome {:?} expected TruncatedPgpSignature", other.map(|(p, s)| (p, s)).map_err(|e| err_name(&e)))),
+                    Err(m) => { o.v("C02", "total", "strip_pgp_signature", "panic", &f2, &t, m.clone()); o.v("C19", "outcome", "strip_pgp_signature", "panic", &f2, &t, m); }
+                }
+            }
+        }
         // SCALED variant of a wrapped message whose outcome is Ok: every payload line 1500 times (each also made long),
         // every signature line 300 times - the expectation scales with the construction
         if kind == "wrapped" && case["x"] == "Ok" && map == 0 && crate::conc::hash64(&o.key) % 4 == 0 {
